@@ -1,6 +1,7 @@
 package props
 
 import (
+	"encoding/json"
 	"fmt"
 	"math"
 	"os"
@@ -386,7 +387,106 @@ type relEvent struct {
 }
 
 // validateRel sends the events to TLC (RelTrace); returns the indices of rejected events.
+// validateRel sends the events to TLC (RelTrace); returns the indices of rejected events.  Afterwards the binding is
+// demonstrated: a few accepted events are corrupted in one place (a result row dropped, a truth value flipped, a
+// row number raised) and TLC must reject every one of them - otherwise the trace specification is vacuous for
+// that kind of event and the run ends as an infrastructure failure.
 func validateRel(r *core.Run, evs []relEvent) []int {
+	rejected := validateRelRaw(r, evs)
+	isRej := map[int]bool{}
+	for _, i := range rejected {
+		isRej[i] = true
+	}
+	var corrupted []relEvent
+	kinds := map[string]int{}
+	for i, e := range evs {
+		if isRej[i] || len(corrupted) >= 8 {
+			continue
+		}
+		k, _ := e.Ev["kind"].(string)
+		if kinds[k] >= 2 {
+			continue
+		}
+		if c, ok := corruptEvent(e.Ev); ok {
+			kinds[k]++
+			corrupted = append(corrupted, relEvent{Ev: c, SQL: e.SQL, Sig: e.Sig})
+		}
+	}
+	if len(corrupted) > 0 {
+		rej := validateRelRaw(r, corrupted)
+		if len(rej) != len(corrupted) {
+			acc := map[int]bool{}
+			for i := range corrupted {
+				acc[i] = true
+			}
+			for _, i := range rej {
+				delete(acc, i)
+			}
+			for i := range acc {
+				core.Fail("RelTrace accepts a corrupted %v event (%s): the binding is vacuous for this kind", corrupted[i].Ev["kind"], corrupted[i].SQL)
+			}
+		}
+		r.Count("binding_selftest_corrupted_events_rejected", len(rej))
+	}
+	return rejected
+}
+
+// corruptEvent returns a copy of the event with one observed field changed so that it can no longer be right.
+func corruptEvent(ev map[string]interface{}) (map[string]interface{}, bool) {
+	var c map[string]interface{}
+	if err := json.Unmarshal([]byte(core.JSON(ev)), &c); err != nil {
+		return nil, false
+	}
+	dropLast := func(key string) bool {
+		l, ok := c[key].([]interface{})
+		if !ok || len(l) == 0 {
+			return false
+		}
+		c[key] = l[:len(l)-1]
+		return true
+	}
+	switch c["kind"] {
+	case "filter", "nested", "join", "using":
+		return c, dropLast("res")
+	case "sort":
+		lim, _ := c["lim"].(map[string]interface{})
+		if lim == nil || lim["k"] != "none" {
+			return nil, false
+		}
+		return c, dropLast("res")
+	case "concat":
+		return c, dropLast("whole")
+	case "truth":
+		l, ok := c["res"].([]interface{})
+		if !ok || len(l) == 0 {
+			return nil, false
+		}
+		if l[0] == "T" {
+			l[0] = "F"
+		} else {
+			l[0] = "T"
+		}
+		return c, true
+	case "analytic":
+		if c["fn"] != "row_number" {
+			return nil, false
+		}
+		parts, _ := c["parts"].([]interface{})
+		if len(parts) == 0 {
+			return nil, false
+		}
+		vals, _ := parts[0].(map[string]interface{})["vals"].([]interface{})
+		if len(vals) == 0 {
+			return nil, false
+		}
+		v := vals[0].(map[string]interface{})
+		v["i"] = v["i"].(float64) + 1
+		return c, true
+	}
+	return nil, false
+}
+
+func validateRelRaw(r *core.Run, evs []relEvent) []int {
 	var rejected []int
 	base := 0
 	rest := evs
